@@ -408,7 +408,7 @@ class CallMixin:
             funcv = self.sidecar_function(ext.ensures)
             wanted = [a.arg for a in funcv.node.args.args]
             entry = dict(getattr(self, "entry_values", {}) or {})
-            if wanted and all(w == "result" or w in entry for w in wanted) and "result" in wanted:
+            if getattr(ext, "over_contract_params", False) and all(w == "result" or w in entry for w in wanted):
                 # the assumed postcondition speaks about the contract's own (ghost) parameters
                 entry["result"] = result
                 t = self.truth(self.eval_named(ext.ensures, entry))
